@@ -21,7 +21,7 @@ func init() {
 	register(&Property{
 		Meta: report.Meta{
 			Property:    "C12",
-			Explanation: "Structural rules on selector.Parse / resolve: (R1) kind totality — for every segment literal that Parse can produce, the kind it intends (identity, iterator, field, slice, index) is derived from the fields it sets, and resolve's dispatch predicates, evaluated on the abstract values of exactly those fields (constants, regex-derived minimum lengths), must select that kind on every path; (R2) nothing ignored — inside the loop over ALL segments a return with a nil error returns a nil node, a non-nil node is returned only after the loop is exhausted and is the current node; (R3) optional discipline — every failure exit of the field and index cases goes through the optional idiom (errIfNotOptional or a branch on Optional()), other kinds fail with a non-nil error; (R4) slice operands — resolveSliceIndices receives the segment's slice and the length of the very collection that is then sliced; (R5) Select is resolve(selector, subject, nil). Index/slice arithmetic (Python clamping, negative indexes) is a numeric clause and is not decided. (R7) the index case of resolve evaluated on a grid of (index, length) for lists and bytes against element i / length+i / failure; Node.Length() of a bytes node evaluates to -1. (R8) strconv conversions reachable from Parse in the package use base 10 and bit size 0 or 64. The loop stepping a MapIterator in resolve adds the value returned by Next on every step that does not fail. No Convert in package selector narrows a 64-bit integer; a loop computing n = n*c + d compares n (or the length of its text) with a constant. In the iterator case of resolve the cursor is left unchanged only on paths where its kind is known to be list.",
+			Explanation: "Structural rules on selector.Parse / resolve: (R1) kind totality — for every segment literal that Parse can produce, the kind it intends (identity, iterator, field, slice, index) is derived from the fields it sets, and resolve's dispatch predicates, evaluated on the abstract values of exactly those fields (constants, regex-derived minimum lengths), must select that kind on every path; (R2) nothing ignored — inside the loop over ALL segments a return with a nil error returns a nil node, a non-nil node is returned only after the loop is exhausted and is the current node; (R3) optional discipline — every failure exit of the field and index cases goes through the optional idiom (errIfNotOptional or a branch on Optional()), other kinds fail with a non-nil error; (R4) slice operands — resolveSliceIndices receives the segment's slice and the length of the very collection that is then sliced; (R5) Select is resolve(selector, subject, nil). Index/slice arithmetic (Python clamping, negative indexes) is a numeric clause and is not decided. (R7) the index case of resolve evaluated on a grid of (index, length) for lists and bytes against element i / length+i / failure; Node.Length() of a bytes node evaluates to -1. (R8) strconv conversions reachable from Parse in the package use base 10 and bit size 0 or 64. The loop stepping a MapIterator in resolve adds the value returned by Next on every step that does not fail. No Convert in package selector narrows a 64-bit integer; a loop computing n = n*c + d compares n (or the length of its text) with a constant. In the iterator case of resolve the cursor is left unchanged only on paths where its kind is known to be list. Each accessor of segment returns recv.<field> (or recv.<field>[:]) on its every path.",
 			Assumptions: []string{"go-ipld-prime Node.Kind/Length/LookupBy* contracts", "regexp/syntax minimum-length computation is exact for the three regex constants"},
 			Trusted:     []string{"golang.org/x/tools/go/ssa v0.29.0", "regexp/syntax", "go-ipld-prime"},
 			NotDecided:  []string{"resolveSliceIndices arithmetic (clamping, negative indexes)", "negative index arithmetic in the index case", "values returned by go-ipld-prime lookups"},
@@ -53,7 +53,7 @@ func (l segLit) kind() string {
 }
 
 func runC12(x *Ctx) {
-	x.C.Rule("C12.R1", "every segment literal produced by Parse is dispatched by resolve to the kind it intends", 8)
+	x.C.Rule("C12.R1", "every segment literal produced by Parse is dispatched by resolve to the kind it intends; segment accessors return their field", 8)
 	x.C.Rule("C12.R2", "no early success return of a node inside the segment loop", 2)
 	x.C.Rule("C12.R3", "field and index cases fail through the optional idiom; siblings agree; a successful lookup is never dropped; iterator totality; the iterator is a no-op on lists only", 5)
 	x.C.Rule("C12.R4", "resolveSliceIndices gets the slice of the segment and the length of the collection sliced", 3)
@@ -144,6 +144,38 @@ func runC12(x *Ctx) {
 	}
 	for _, k := range []string{"identity", "iterator", "field", "slice", "index"} {
 		x.C.Obl("C12.R1", "produces:"+k, x.pos(parse), "Parse produces a segment literal of kind "+k, seenKinds[k], "")
+	}
+	// the dispatch above reads the predicates of a segment through its accessors: each hands out its namesake field,
+	// whatever the value (a Slice() that answers nil for the bounds 0:0 turns that slice into an index)
+	for _, m := range []string{"Identity", "Optional", "Iterator", "Slice", "Field", "Index"} {
+		g := x.P.Func(segT + m)
+		if g == nil || len(g.Blocks) == 0 {
+			continue // no such accessor (any more): the field is read directly, which the dispatch table covers
+		}
+		gps := x.paths("C12.R1", g)
+		if gps == nil {
+			continue
+		}
+		want := "recv." + lowerFirst(m)
+		badA := ""
+		for _, p := range gps {
+			if p.End != paths.EndReturn || len(p.Results()) != 1 {
+				badA += "a path that does not return\n"
+				continue
+			}
+			r := p.Results()[0]
+			if r != nil && r.Op == "slice" && len(r.Args) >= 3 && r.Args[1] == nil && r.Args[2] == nil && (len(r.Args) == 3 || r.Args[3] == nil) {
+				r = r.Args[0]
+			}
+			if r == nil || r.String() != want {
+				got := "nil"
+				if r != nil {
+					got = firstLines(r.String(), 1)
+				}
+				badA += x.P.Pos(p.Ret.Pos()) + ": returns " + got + "\n"
+			}
+		}
+		x.C.Obl("C12.R1", "accessor:"+m, x.pos(g), "the accessor of a segment returns its namesake field on every path", badA == "", dedupLines(badA))
 	}
 
 	// ---------------- R2
